@@ -827,6 +827,7 @@ class QueryBuilder(Selectable, Term):
             A copy of the query with the tables replaced.
         """
         self._from = [new_table if table == current_table else table for table in self._from]
+        self._using = [new_table if table == current_table else table for table in self._using]
         self._insert_table = new_table if self._insert_table == current_table else self._insert_table
         self._update_table = new_table if self._update_table == current_table else self._update_table
 
